@@ -275,8 +275,9 @@ def scenario(case):
     mon = Mon()
     d.apply(['boot'])
     for ev in case['head']:
-        if list(ev) not in enabled(d):
-            return []
+        en = enabled(d)
+        if list(ev) not in en and not (ev[0] == 'updv' and ['updv'] in en):
+            return [('harness:scenario-event-not-enabled', '%r in state %s' % (ev, d.sim.state))]
         res, _ = apply(d, mon, list(ev))
         if res:
             return res
@@ -303,6 +304,13 @@ SCENARIOS = [{'cfg': c, 'head': h, 'fail': f, 'span': 400}
                        [['ok'], ['open', 'valid', 90], ['ka'], ['bad_marker']],
                        [['ok'], ['open', 'h0', 0], ['ka'], ['notif', 'other']],
                        [['refused'], ['tick'], ['ok'], ['close']])]
+
+
+# every REST / queue event once for sure, on an Established session, followed by two KEEPALIVEs of the peer (the agent's
+# internal queue is drained when a KEEPALIVE arrives) - the walks reach these only with some probability
+SCENARIOS += [{'cfg': {'hold': 180, 'idle_hold': 30, 'connect_retry': 60}, 'head': [['ok'], ['open', 'valid', 90], ['ka']] + pre + [e, ['ka'], ['ka'], e, ['ka']],
+               'fail': 'refused', 'span': 0}
+              for e in EXTRA[10:] for pre in ([], [['ka']], [['updv', 0, 3]])]
 
 
 def shards(tier):
